@@ -31,7 +31,7 @@ LEVEL_TEXT = ("Held on every call of every generated history of this run (20-60 
 LEVEL_NOTE = ("Side effects are visible only through argument/global/RNG digests and CPython audit events; an effect that changes "
               "none of these is out of reach. Results are compared after canonicalisation (numpy scalars -> Python scalars, arrays "
               "with dtype and shape).")
-PLAN = {"quick": dict(shards=16, budget=60), "thorough": dict(shards=32, budget=500)}
+PLAN = {"quick": dict(shards=16, budget=90), "thorough": dict(shards=32, budget=500)}
 RULE = ("Histories of 20-60 calls drawn from encode / decode / repair_dna / set_vt / the four converters / calculus helpers / "
         "find_vertices / connect_valid_graph / connect_coding_graph / approximate_capacity / calculate_intersection_score / "
         "create_random_shuffles / the representation converters / leaf and vertex queries / path_matching / remove_useless / "
@@ -329,7 +329,7 @@ def _initial(rng):
     lm = [[v, [int(w) for w in acc[v] if w >= 0]] for v in live]
     cfg = dict(run=rng.choice([None, 1, 2]), gc=rng.choice([None, [0.25, 0.75], [0.5, 0.5], [0.0, 1.0]]),
                motifs=rng.choice([None, [gens.random_dna(rng, 2)]]))
-    return dict(k=k, start=start, acc=G.acc_to_hex(acc), msg=[rng.randint(0, 1) for _ in range(rng.randint(4, 36))],
+    return dict(k=k, start=start, acc=G.acc_to_hex(acc), msg=rng.choice([[], [0] * rng.randint(1, 12)] + [[rng.randint(0, 1) for _ in range(rng.randint(1, 36))] for _ in range(10)]),
                 table=gens.table(rng, k, "random"), mask=G.mask_to_hex(gens.rand_mask(rng, k, rng.choice([0.6, 0.85, 1.0]))),
                 lm=lm, cfg=cfg, strand=strand, check=oracles.vt(strand, 4))
 
@@ -396,7 +396,7 @@ def _params(rng, name, S):
 
 def generate(ctx):
     rng = ctx.rng
-    for _ in range(ctx.pick(30, 250)):
+    for _ in range(ctx.pick(22, 250)):
         yield "history", dict(seed=rng.getrandbits(48), length=rng.randint(20, 60), fresh_each=(not ctx.quick()) and rng.random() < 0.15)
 
 
